@@ -45,6 +45,11 @@ RTC_DRIVERS = {
     "drv_misc": ["C07", "C15", "C16", "C17", "C18", "C19", "C20"],
 }
 
+# a driver written for one property also exercises contracts that belong to another: (driver, property it is run as, tag a
+# failure must carry to count for this property).  C04 (substitution) on Gaussians is exercised by the C12 driver's
+# substitution contracts.
+RTC_EXTRA = {"C04": [("drv_gauss", "C12", "subs")]}
+
 PY_SEMANTICS = [
     "Python ints are unbounded (z3 Int is exact, not an idealisation)",
     "// and % follow floor / sign-of-divisor semantics (Euclidean witnesses for symbolic divisors)",
@@ -286,11 +291,14 @@ def main():
     rtc_distinct = 0
     rtc_samples = []
     if "--no-rtc" not in args:
-        for drv, props in RTC_DRIVERS.items():
-            if prop not in props or not os.path.exists(os.path.join(HERE, "rtc", drv + ".py")):
+        plan = [(drv, prop, None) for drv, props in RTC_DRIVERS.items() if prop in props] + RTC_EXTRA.get(prop, [])
+        for drv, run_as, need_tag in plan:
+            if not os.path.exists(os.path.join(HERE, "rtc", drv + ".py")):
                 continue
             budget = int(os.environ.get("VERIF_RTC_BUDGET_S", "900" if tier == "quick" else "5400"))
-            res, err = run_rtc_subprocess(drv, prop, tier, seed, jobs, budget)
+            res, err = run_rtc_subprocess(drv, run_as, tier, seed, jobs, budget)
+            if res is not None and need_tag is not None:
+                res["failures"] = [f for f in res["failures"] if need_tag in f["tags"]]
             if res is None:
                 if err == "timeout":
                     bounded.append(dict(driver=drv, timed_out=True, budget_s=budget, note="bounded driver exceeded its time budget on this run; its (partial) work is not reported and does not affect the verdict"))
@@ -303,6 +311,7 @@ def main():
             rtc_distinct += res["distinct"]
             rtc_samples += j["samples"][:4]
             kf = 0
+            unreported = {}
             for i, f in enumerate(res["failures"]):
                 k = match_known(known, prop, "rtc", contract=f["contract"], tags=f["tags"])
                 if k is not None:
@@ -311,15 +320,19 @@ def main():
                     if line not in known_lines:
                         known_lines.append(line)
                     continue
+                if len([v for v in violations if v[2].startswith("rtc:" + f["contract"] + ":")]) >= 5:
+                    unreported[f["contract"]] = unreported.get(f["contract"], 0) + 1
+                    continue  # five replays per contract are written and run; the rest are counted in the evidence
                 header = "property %s\nbounded contract %s violated\ncase: %s\ndetail: %s\ntags: %s" % (prop, f["contract"], json.dumps(f["case"])[:1500], f["detail"], f["tags"])
                 path = write_replay(prop, "rtc_%s_%s_%d" % (drv, f["contract"], i), f.get("replay_src"), header)
                 reproduced = False
                 if f.get("replay_src"):
                     rc, out = run_replay(path)
                     reproduced = rc == 1
-                if len([v for v in violations if v[2].startswith("rtc:" + f["contract"])]) < 5:
-                    violations.append((path, reproduced, "rtc:%s:%s" % (f["contract"], json.dumps(f["case"])[:200])))
+                violations.append((path, reproduced, "rtc:%s:%s" % (f["contract"], json.dumps(f["case"])[:200])))
             j["known_findings_refound"] = kf
+            if unreported:
+                j["further_failures_without_individual_replay"] = unreported
             bounded.append(j)
 
     # ---------------- verdict ---------------------------------------------------------------------------
